@@ -95,7 +95,7 @@ def _status_value(ident, src, rel):
 DEFAULTS = {"exempt": [("Upgrade", "websocket"), ("Accept", "text/event-stream")],
             "sse_headers": [("Content-Type", "text/event-stream"), ("Cache-Control", "no-cache"),
                             ("Connection", "keep-alive")],
-            "recover_reply": [["wh", 500]], "recover_code": 500}
+            "recover_reply": [["wh", 500]], "recover_code": 500, "recover_inside": True}
 
 LAST = None          # the constants of the last successful extract() (generation / rendering use them)
 
@@ -263,6 +263,20 @@ def _syn_recover(c):
     c["recover_code"] = c["recover_reply"][0][1]
 
 
+def _syn_chain_order(c):
+    """an OBSERVATION, not an obligation: does the engine put the RecoverHandler behind (inside) the timeout
+    middleware or in front of it?  Both orders satisfy the property; the model follows the tree."""
+    rel = "rest/engine.go"
+    e = _read(rel)
+    body = _func_body(e, r"func \(ng \*engine\) buildChainWithNativeMiddlewares\(", rel)
+    i, j = body.find("handler.TimeoutHandler("), body.find("handler.RecoverHandler")
+    if i < 0 or j < 0 or body.count("handler.TimeoutHandler(") != 1 or body.count("handler.RecoverHandler") != 1 \
+            or not re.search(r"chn = chn\.Append\(handler\.TimeoutHandler\(", body) \
+            or not re.search(r"chn = chn\.Append\(handler\.RecoverHandler\)", body):
+        _fail("the places of TimeoutHandler and RecoverHandler in the chain", rel)
+    c["recover_inside"] = i < j
+
+
 # group name -> (syntactic extractor, the items it establishes)
 GROUPS = [
     ("timeout_codes", _syn_handler_consts, ["code_cancel", "code_deadline"]),
@@ -275,6 +289,7 @@ GROUPS = [
     ("engine", _syn_engine, ["conf_unit_ns", "conf_unit_ns_engine", "read_num", "read_den", "write_num", "write_den"]),
     ("sse", _syn_sse, ["sse_headers"]),
     ("recover", _syn_recover, ["recover_reply", "recover_code"]),
+    ("chain_order", _syn_chain_order, ["recover_inside"]),
 ]
 ITEMS = [k for _g, _f, ks in GROUPS for k in ks]
 HOW = {}             # item -> "source" | "experiment" (of the last extract)
@@ -321,6 +336,15 @@ def reply_names(reply):
     return sorted(set(op[1] for op in reply if op[0] in ("del", "set")))
 
 
+def reply_key(c, name):
+    """model key of a header the reply touches: the key of the SSE route header of that name (900+i) if
+    there is one — it is the same header of the same writer —, else 800+j"""
+    sse = [n for n, _v in c.get("sse_headers", [])]
+    if name in sse:
+        return 900 + sse.index(name)
+    return 800 + reply_names(c["recover_reply"]).index(name)
+
+
 def _bytes(s):
     return "[" + "; ".join(str(b) for b in s.encode()) + "]"
 
@@ -355,9 +379,9 @@ def regen(probe=None):
     ops = []
     for op in c["recover_reply"]:
         if op[0] == "del":
-            ops.append("(0, %d, 0, [])" % (800 + names.index(op[1])))
+            ops.append("(0, %d, 0, [])" % reply_key(c, op[1]))
         elif op[0] == "set":
-            ops.append("(1, %d, %d, [])" % (800 + names.index(op[1]), 850 + names.index(op[1])))
+            ops.append("(1, %d, %d, [])" % (reply_key(c, op[1]), 850 + names.index(op[1])))
         elif op[0] == "wh":
             ops.append("(2, %d, 0, [])" % op[1])
         else:
@@ -374,8 +398,8 @@ def regen(probe=None):
         with open(path, "w") as f:
             f.write(text)
     exp = sorted(k for k, v in HOW.items() if v == "experiment")
-    return ["C04Consts.v: codes %d/%d reason=%r exempt=%s sse_headers=%d factors %d/%d %d/%d flush(lock=%s,timedOut=%s,status=%s) recover=%d%s"
+    return ["C04Consts.v: codes %d/%d reason=%r exempt=%s sse_headers=%d factors %d/%d %d/%d flush(lock=%s,timedOut=%s,status=%s) recover=%d (%s the timeout middleware)%s"
             % (c["code_cancel"], c["code_deadline"], c["reason"], c["exempt"], len(c["sse_headers"]),
                c["read_num"], c["read_den"], c["write_num"], c["write_den"],
-               c["flush_locks"], c["flush_checks_timedout"], c["flush_sends_status"], c["recover_code"],
+               c["flush_locks"], c["flush_checks_timedout"], c["flush_sends_status"], c["recover_code"], "inside" if c["recover_inside"] else "IN FRONT OF",
                ("; established by EXPERIMENT (source shape not recognised): " + ", ".join(exp)) if exp else "")]
